@@ -199,6 +199,24 @@ func purityRun(args []string) error {
 			return b.Bytes()
 		}})
 	}
+	// Response.HeaderSha256 (what bundle signing hashes): an ordinary response, and - as an UNRELATED call that fails after
+	// partial progress - a response whose header names collide; the failing call must not disturb the next ordinary one
+	okResp := &bundle.Response{Status: 200, Header: permHeader(r, hkv), Body: []byte("x")}
+	badResp := &bundle.Response{Status: 200, Header: http.Header{"X-Dup": {"1"}, "x-dup": {"2"}, "A-First": {"a"}, "Zeta": {"z"}}, Body: []byte("y")}
+	sers = append(sers, &pser{name: "Response.HeaderSha256", run: func(io.Writer) []byte {
+		h, err := okResp.HeaderSha256()
+		if err != nil {
+			return []byte("error: " + err.Error())
+		}
+		return h
+	}})
+	sers = append(sers, &pser{name: "Response.HeaderSha256 (colliding names: fails)", run: func(io.Writer) []byte {
+		h, err := badResp.HeaderSha256()
+		if err != nil {
+			return []byte("error: " + err.Error())
+		}
+		return h
+	}})
 	sers = append(sers, &pser{name: "Bundle.WriteTo (built)", gated: true, run: func(w io.Writer) []byte { sharedBundle.WriteTo(w); return nil }})
 	sers = append(sers, &pser{name: "Bundle.WriteTo (parsed)", gated: true, run: func(w io.Writer) []byte { parsedBundle.WriteTo(w); return nil }})
 	ch := (&bsigner{"c", []*keyCert{newKeyCert("p256", nil, 0), newKeyCert("p384", nil, 10)}, nil}).chain()
@@ -255,14 +273,15 @@ func purityRun(args []string) error {
 		}
 		// (A) repetitions, interleaved with unrelated calls
 		calls := []map[string]interface{}{}
+		var raw [][]byte // results as returned, looked at only after all calls (a result must not be backed by reused storage)
 		for i := 0; i < reps; i++ {
 			var b bytes.Buffer
 			if s.gated {
 				s.run(&b)
+				raw = append(raw, b.Bytes())
 			} else {
-				b.Write(s.run(nil))
+				raw = append(raw, s.run(nil))
 			}
-			calls = append(calls, map[string]interface{}{"g": 0, "out": ints(b.Bytes())})
 			other := sers[(i*7+3)%len(sers)]
 			if other.gated {
 				var x bytes.Buffer
@@ -270,6 +289,9 @@ func purityRun(args []string) error {
 			} else {
 				other.run(nil)
 			}
+		}
+		for _, o := range raw {
+			calls = append(calls, map[string]interface{}{"g": 0, "out": ints(o)})
 		}
 		id++
 		emit(map[string]interface{}{"case": fmt.Sprintf("p%d", id), "kind": "hist", "ser": s.name, "mode": "repeat", "sched": []int{}, "ref": ints(ref.Bytes()),
